@@ -523,6 +523,39 @@ def check_fromint(res, facts):
                 rf.ok(key, "Some(..) unreachable when is_geq_modulus() holds", fn.loc)
 
 
+def check_fromint_narrow(res, facts):
+    """From<u128> / From<u64> / ... for Fp: the integer must be reduced at its full width.  A narrowing cast applied to the
+    raw argument (`other as u64 % p` instead of `(other % p) as u64`) throws away the high bits before the reduction:
+    the result is (x mod 2^64) mod p, not x mod p -- visible only for one-limb fields and arguments >= 2^64."""
+    from rules.c07 import E, show
+    rule = res.rule("R-FROMINT.narrow", "small-integer conversions into Fp never truncate the raw argument before reducing it", 5)
+    bits = {"u8": 8, "u16": 16, "u32": 32, "u64": 64, "u128": 128, "usize": 64, "i8": 8, "i16": 16, "i32": 32, "i64": 64, "i128": 128, "bool": 1}
+    for fn in facts.fns(unit="ws", crate="ark_ff"):
+        if fn.kind == "Closure" or fn.name != "from" or fn.trait_impl != "core::convert::From" or fn.self_head != "ark_ff::fields::models::fp::Fp":
+            continue
+        src = fn.local_ty(1)
+        if src not in bits or src == "bool":
+            continue
+        key = "ark_ff|Fp::from(%s)" % src
+        bad = []
+        raw = (("arg", 1, ()), ("phi", 1, ()))
+        casts = [(bi, st_["r"], E(fn, st_["r"]["o"]), st_.get("ln")) for bi, si, st_ in fn.stmts() if st_.get("r") and st_["r"]["k"] == "cast" and st_["r"].get("ck") == "IntToInt" and st_["r"].get("ty") in bits]
+        assigns = [d[0] for d in fn.defs().get(1, []) if d[2] == "assign"]
+        for bi, r, e, ln in casts:
+            if e in raw and bits[r["ty"]] < bits[src]:
+                if any(fn.dominates(ab, bi) and ab != bi for ab in assigns):
+                    continue        # the parameter was reassigned (reduced) on every path to this cast
+                # a limb split keeps the other half: `(arg >> w) as _` on the same path
+                w = bits[r["ty"]]
+                split = any(isinstance(e2, tuple) and e2[:2] == ("bin", "Shr") and e2[2] in raw and e2[3] == w and (fn.dominates(bi, b2) or fn.dominates(b2, bi)) for b2, r2, e2, _ in casts)
+                if not split:
+                    bad.append("`arg as %s` (line %s)" % (r["ty"], ln))
+        if bad:
+            rule.bad(key, "the %s argument is narrowed before it is reduced: %s -- the bits above the narrowed width never reach the `%% modulus`, so values >= 2^%d convert to the wrong element on fields whose modulus fits the narrowed width" % (src, ", ".join(bad), min(bits[r_] for r_ in ("u64",))), fn.loc)
+        else:
+            rule.ok(key, "no narrowing of the raw argument", fn.loc)
+
+
 # ------------------------------------------------------------------------------------------------
 # integer expressions over configuration parameters
 
@@ -891,6 +924,7 @@ def run(ctx, res):
     check_ops(res, facts, reducers, mods)
     check_shape(res, facts, mods)
     check_fromint(res, facts)
+    check_fromint_narrow(res, facts)
     check_sopchunk(res, facts, mods)
     check_bytes(res, facts)
     check_unroll(res, facts)
